@@ -591,6 +591,41 @@ func init() {
 				in := w.spell(r, spellOpts{caseScheme: true, caseHost: true, defaultPort: true, dotSeg: true, tabNl: r.Chance(1, 4), ws: r.Chance(1, 4), pct: true, depth: 3, emptyFrag: true}, r.Next())
 				idem(d, p, in, "web-url-grammar", i)
 			})
+			// the repeated decoding itself: the implementation (one pass), the model of that code (Model/DecodeOnePass.v) and the
+			// iterated specification (Model/Canon.v) on generated strings; the result has no escape left and is reproduced
+			c.Pool.Run(8000*c.Scale, func(d *Driver, i int) {
+				r := rng.Fork(3000000 + i)
+				s := r.codecString()
+				switch r.Intn(5) {
+				case 0:
+					s = r.spellText(r.unres(1, 4), spellOpts{pct: true, depth: 1 + r.Intn(12)}, r)
+				case 1:
+					s = s + nestEsc(byte(r.pickByte("a%2F5")), 1+r.Intn(40)) + r.codecString()
+				case 2:
+					s = r.Pick([]string{"%%4141", "%2%352", "%25%32%35", "%%32%35", "%2525%3535", "A%", "%4", "%%", "%GG", "", "%2541%", "%2f%2F%252f", "%%%32532541", "%FF%ff%00", "%%%%%%32353235", "%25252", "%2%2%2535"})
+				}
+				got := canonicalizer.VerifRepeatedDecode(s)
+				cs := Case{Kind: "unit", Family: "repeated-decode", Input: s, Index: i}
+				c.Count("rd\x00"+s, strings.Contains(s, "%"), "repeated-decode")
+				if pctDecode(got) != got {
+					c.Report(Finding{Class: "violation", What: fmt.Sprintf("repeated decoding of %q leaves an escape: %q", s, got), Case: cs})
+				}
+				ref := s
+				for k := 0; k < 4096 && pctDecode(ref) != ref; k++ {
+					ref = pctDecode(ref)
+				}
+				if got != ref {
+					c.Report(Finding{Class: "violation", What: fmt.Sprintf("repeated decoding of %q gives %q; unescaping until nothing changes gives %q", s, got, ref), Case: cs})
+				}
+				if m := d.Ask("RD1 " + hx(s)); unhx(m) != got {
+					c.Report(Finding{Class: "correspondence", What: fmt.Sprintf("repeatedDecode(%q): one-pass model %q, implementation %q", s, unhx(m), got), Case: cs})
+				}
+				if len(s) <= 400 {
+					if m := d.Ask("RD " + hx(s)); m == "FUEL" || unhx(m) != got {
+						c.Report(Finding{Class: "correspondence", What: fmt.Sprintf("repeatedDecode(%q): iterated specification %q, implementation %q", s, m, got), Case: cs})
+					}
+				}
+			})
 			// escapes nested arbitrarily deep (the decoding loop must run to its fixed point, however many rounds that takes)
 			var deepProfs []*Prof
 			deepProfs = append(deepProfs, exp...)
